@@ -190,6 +190,8 @@ def _roundtrip(ctx, repo, restore) -> None:
 
 def check(ctx) -> None:
     repo = ctx.repo
+    ctx.rule("C30.tracked", "MUST-PASS: every path through the patched random.Random.seed registers the instance in the set that _make_deterministic reseeds", floor=1)
+    _tracked_instances(ctx, repo)
     ctx.rule("C30.restore-saved", "the value written back to a process global on exit originates from a read of that global made on entry", floor=4)
     ctx.rule("C30.unconditional", "restoring writes do not depend on the state the executed code left behind; they are guarded only by the idempotence flag / `saved is not None`", floor=3)
     ctx.rule("C30.all-exits", "restore happens on every exit: __exit__ calls restore(), generator context managers restore in finally, the executor restores on its timeout path", floor=4)
@@ -305,3 +307,26 @@ def check(ctx) -> None:
     p = cfg.path([cfg.entry], execs, avoid_nodes=before)
     ctx.paths += 1
     ctx.check("C30.reseed", etc, p is None and bool(before) and bool(execs), "a statement can be executed without the reseeding hook having run first: after a timed-out test case (whose after-hook never runs) the next test case sees consumed random state", what="reseed hook dominates statement execution", path=cfg.describe_path(p) if p else [])
+
+
+def _tracked_instances(ctx, repo) -> None:
+    """Every random.Random instance that is seeded through the patched seed - whatever seed it is given - is registered
+    for the per-execution reseeding: the registration is passed on every path through the replacement function."""
+    from sa.engine.cfg import CFG
+
+    GEN = "pynguin.generator"
+    outer = repo.try_func(GEN, "_patch_random")
+    if outer is None:
+        raise AnalysisError("anchor vanished: generator._patch_random")
+    inner = [f for f in ast.walk(outer) if isinstance(f, ast.FunctionDef) and f is not outer and len(f.args.args) >= 1]
+    tracked_sets = {norm(s.targets[0]) for s in ast.walk(outer) if isinstance(s, ast.Assign) and len(s.targets) == 1 and isinstance(s.targets[0], ast.Attribute) and s.targets[0].attr == "__pynguin_instances__" for _ in (0,)}
+    reg_names = {norm(s.value) for s in ast.walk(outer) if isinstance(s, ast.Assign) and len(s.targets) == 1 and isinstance(s.targets[0], ast.Attribute) and s.targets[0].attr == "__pynguin_instances__"}
+    if len(inner) != 1 or not reg_names:
+        raise AnalysisError("C30.tracked: the replacement seed function / its instance registry vanished")
+    fn = inner[0]
+    ctx.analysed(fn)
+    selfname = fn.args.args[0].arg
+    cfg = CFG(fn)
+    adds = {n.id for n in cfg.nodes if n.kind == "stmt" and n.stmt is not None and any(isinstance(c, ast.Call) and isinstance(c.func, ast.Attribute) and c.func.attr == "add" and norm(c.func.value) in reg_names and c.args and norm(c.args[0]) == selfname for c in ast.walk(n.stmt)) and not isinstance(n.stmt, (ast.If, ast.For, ast.While, ast.With, ast.Try))}
+    p = cfg.path([cfg.entry], [cfg.exit], avoid_nodes=adds, labels_excluded=("exc",)) if adds else [cfg.entry]
+    ctx.check("C30.tracked", fn, p is None, "a path through the patched Random.seed does not register the instance (e.g. only instances seeded with the default are tracked): a generator the module under test seeds explicitly - random.Random(2024) - is never put back before an execution, so what a test case draws depends on the test cases executed before it", what="every seeded Random instance is registered for reseeding", path=cfg.describe_path(p) if p else [], stmt="[tracked] registration on every path")
